@@ -1,7 +1,8 @@
 /-
   C16 — Function estimation is affine in the values, column-independent and noise-aware.
   Property theorems only; about `fullCondInit` (the predictor `FunctionEstimator` builds for
-  gp_type 'full') at α = ℝ, for all sizes, data, kernels and noise forms.
+  gp_type 'full') and `lmCondInit` (gp_type 'sparse_cholesky' / 'fixed': landmarks; a sigma vector is the
+  noise of the cells for every number of landmarks) at α = ℝ, for all sizes, data, kernels and noise forms.
 -/
 import MellonProofs.LinearityLemmas
 import MellonProofs.C01
@@ -173,82 +174,88 @@ theorem const_vector_sigma (cov : Cov ℝ) (x : Mat ℝ n d) (y : Mat ℝ n c) (
 
 /-! ### the inducing-point (DTC) predictor of `gp_type` sparse_cholesky / fixed -/
 
-/-- **Affine (DTC).** The same law for the predictor built on landmarks. -/
+/-- **Affine (DTC).** The same law for the predictor built on landmarks — for every noise form, including the
+    per-cell sigma vector (one noise level per cell, any number of landmarks). -/
 theorem affine_dtc {m : Nat} {cov : Cov ℝ} {x : Mat ℝ n d} {xu : Mat ℝ m d} {y y' : Mat ℝ n c} {mu a b : ℝ}
-    {sigma : Sigma ℝ m} {jitter : ℝ} {ycf : Option (AnyMat ℝ)} {yIsMean : Bool} {s : CondState ℝ m d c}
+    {sigma : Sigma ℝ n} {jitter : ℝ} {ycf : Option (AnyMat ℝ)} {yIsMean : Bool} {s : CondState ℝ m d c}
     (h : lmCondInit cov x xu y mu sigma jitter ycf yIsMean false = .ok s)
     (hy' : ∀ i k, i < n → k < c → y'.el i k = a * y.el i k + b) :
     ∃ s', lmCondInit cov x xu y' (a * mu + b) sigma jitter ycf yIsMean false = .ok s'
       ∧ ∀ (xq : List ℝ) (col : Nat), col < c → s'.mean1 xq col = a * s.mean1 xq col + b := by
-  unfold lmCondInit at h ⊢
-  split at h
-  · cases h
-  · rename_i L hL
-    simp only at h ⊢
-    split at h
-    · cases h
-    · rename_i LLB hLLB
-      split at h
-      · cases h
-      · rename_i LB hLB
-        simp only [Bool.not_false, if_true] at h ⊢
-        have hs := (Except.ok.inj h).symm; subst hs
-        refine ⟨_, rfl, ?_⟩
-        intro xq col hcol
-        have hres : ∀ i k, i < n → k < c →
-            (residual y' (a * mu + b)).el i k = a * (residual y mu).el i k := by
-          intro i k hi hk
-          simp only [residual, el_ofFn, hi, hk, and_self, if_true, hy' i k hi hk]; ring
-        have hw := lmWeights_smul L LB (solveLowerM L (gram cov xu x)) a (residual y mu)
-          (residual y' (a * mu + b)) hres
-        simp only [CondState.mean1, nsum_eq_sum]
-        have : ∑ j ∈ range m, cov.k xq (xu.row j)
-              * (lmWeights L LB (solveLowerM L (gram cov xu x)) (residual y' (a * mu + b))).el j col
-            = a * ∑ j ∈ range m, cov.k xq (xu.row j)
-              * (lmWeights L LB (solveLowerM L (gram cov xu x)) (residual y mu)).el j col := by
-          rw [Finset.mul_sum]
-          apply Finset.sum_congr rfl
-          intro j hj
-          rw [hw j col (Finset.mem_range.mp hj) hcol]; ring
-        rw [this]; ring
+  have hres : ∀ i k, i < n → k < c →
+      (residual y' (a * mu + b)).el i k = a * (residual y mu).el i k := by
+    intro i k hi hk
+    simp only [residual, el_ofFn, hi, hk, and_self, if_true, hy' i k hi hk]; ring
+  obtain ⟨L, hL, hbr⟩ := lmCondInit_ok h
+  rcases hbr with ⟨hpc, hcore⟩ | ⟨v, hpc, hcore⟩
+  · obtain ⟨s', hs', hmean⟩ := lmCore_affine (residual y' (a * mu + b)) a b hcore hres
+    refine ⟨s', ?_, hmean⟩
+    unfold lmCondInit
+    simp only [hL, hpc]
+    exact hs'
+  · have hres' : ∀ i k, i < n → k < c →
+        (scaleRows (residual y' (a * mu + b)) (cellScale v jitter)).el i k
+          = a * (scaleRows (residual y mu) (cellScale v jitter)).el i k := by
+      intro i k hi hk
+      simp only [scaleRows, el_ofFn, hi, hk, and_self, if_true]
+      rw [hres i k hi hk]; ring
+    obtain ⟨s', hs', hmean⟩ := lmCore_affine (scaleRows (residual y' (a * mu + b)) (cellScale v jitter)) a b
+      hcore hres'
+    refine ⟨s', ?_, hmean⟩
+    unfold lmCondInit
+    simp only [hL, hpc]
+    exact hs'
 
-/-- **Column independence (DTC).** -/
+/-- **Column independence (DTC)**, for every noise form including the per-cell sigma vector. -/
 theorem columns_independent_dtc {m c' : Nat} {cov : Cov ℝ} {x : Mat ℝ n d} {xu : Mat ℝ m d} {y : Mat ℝ n c}
-    {y' : Mat ℝ n c'} {mu : ℝ} {sigma : Sigma ℝ m} {jitter : ℝ} {ycf : Option (AnyMat ℝ)} {yIsMean : Bool}
+    {y' : Mat ℝ n c'} {mu : ℝ} {sigma : Sigma ℝ n} {jitter : ℝ} {ycf : Option (AnyMat ℝ)} {yIsMean : Bool}
     {s : CondState ℝ m d c} {s' : CondState ℝ m d c'}
     (h : lmCondInit cov x xu y mu sigma jitter ycf yIsMean false = .ok s)
     (h' : lmCondInit cov x xu y' mu sigma jitter ycf yIsMean false = .ok s')
     (j j' : Nat) (hj : j < c) (hj' : j' < c') (hcol : ∀ i, i < n → y.el i j = y'.el i j') :
     ∀ xq : List ℝ, s.mean1 xq j = s'.mean1 xq j' := by
-  unfold lmCondInit at h h'
-  split at h
-  · cases h
-  · rename_i L hL
-    try rw [hL] at h'
-    simp only at h h'
-    split at h
-    · cases h
-    · rename_i LLB hLLB
-      try rw [hLLB] at h'
-      simp only at h'
-      split at h
-      · cases h
-      · rename_i LB hLB
-        try rw [hLB] at h'
-        simp only [Bool.not_false, if_true] at h h'
-        have hs := (Except.ok.inj h).symm; subst hs
-        have hs' := (Except.ok.inj h').symm; subst hs'
-        intro xq
-        have hres : ∀ i, i < n → (residual y mu).el i j = (residual y' mu).el i j' := by
-          intro i hi
-          simp only [residual, el_ofFn, hi, hj, hj', and_self, if_true, hcol i hi]
-        have hw := lmWeights_col L LB (solveLowerM L (gram cov xu x)) (residual y mu) (residual y' mu)
-          j j' hj hj' hres
-        simp only [CondState.mean1]
-        congr 1
-        apply nsum_congr
-        intro t ht
-        rw [hw t ht]
+  have hres : ∀ i, i < n → (residual y mu).el i j = (residual y' mu).el i j' := by
+    intro i hi
+    simp only [residual, el_ofFn, hi, hj, hj', and_self, if_true, hcol i hi]
+  obtain ⟨L, hL, hbr⟩ := lmCondInit_ok h
+  obtain ⟨L', hL', hbr'⟩ := lmCondInit_ok h'
+  have hLL : L' = L := Except.ok.inj (hL'.symm.trans hL)
+  subst hLL
+  rcases hbr with ⟨hpc, hcore⟩ | ⟨v, hpc, hcore⟩
+  · rcases hbr' with ⟨_, hcore'⟩ | ⟨v', hpc', _⟩
+    · exact lmCore_col hcore hcore' j j' hj hj' hres
+    · rw [hpc] at hpc'; cases hpc'
+  · rcases hbr' with ⟨hpc', _⟩ | ⟨v', hpc', hcore'⟩
+    · rw [hpc] at hpc'; cases hpc'
+    · have hvv : v' = v := Option.some.inj (hpc'.symm.trans hpc)
+      subst hvv
+      have hres' : ∀ i, i < n → (scaleRows (residual y mu) (cellScale v' jitter)).el i j
+          = (scaleRows (residual y' mu) (cellScale v' jitter)).el i j' := by
+        intro i hi
+        simp only [scaleRows, el_ofFn, hi, hj, hj', and_self, if_true]
+        rw [hres i hi]
+      exact lmCore_col hcore hcore' j j' hj hj' hres'
+
+/-- **Constant vector = scalar (DTC).**  With landmarks (`sparse_cholesky` / `fixed`, any number of them) a per-cell
+    sigma vector with equal entries gives the prediction the scalar gives, at every query point and for every value
+    column (`max(σ², jitter) > 0`, e.g. a positive jitter). -/
+theorem const_vector_sigma_dtc {m : Nat} {cov : Cov ℝ} {x : Mat ℝ n d} {xu : Mat ℝ m d} {y : Mat ℝ n c} {mu : ℝ}
+    {v : Vector ℝ n} {σ jitter : ℝ} {wu wu' : Bool} {s s' : CondState ℝ m d c}
+    (hv : ∀ i, i < n → v.nth i = σ) (hpos : 0 < max (σ * σ) jitter)
+    (h : lmCondInit cov x xu y mu (.vec v) jitter Option.none false wu = .ok s)
+    (h' : lmCondInit cov x xu y mu (.scalar σ) jitter Option.none false wu' = .ok s') :
+    ∀ (xq : List ℝ) (col : Nat), col < c → s.mean1 xq col = s'.mean1 xq col := by
+  intro xq col hcol
+  have hw := C01.dtc_const_vector_weights hv hpos h h'
+  obtain ⟨_, hxb, hmu, hcov⟩ := C01.dtc_percell_weights_solve h
+  obtain ⟨_, _, _, _, _, hxb', hmu', hcov'⟩ := C01.dtc_weights_solve h' (C01.perCell_scalar σ Option.none false)
+  simp only [CondState.mean1, hxb, hmu, hcov, hxb', hmu', hcov']
+  congr 1
+  apply nsum_congr
+  intro t ht
+  have := congrFun (congrFun hw ⟨t, ht⟩) ⟨col, hcol⟩
+  simp only [toM_apply] at this
+  rw [this]
 
 /-! ### shrinkage towards the prior mean -/
 
